@@ -21,6 +21,14 @@ def cases(seed, tier, broken=()):
         c = eofcase.gen_eof_case(rng, solvers=solvers)
         c["kind"] = "eigen"
         out.append(c)
+    # tall matrices whose spectrum spans seven decades, ALL modes requested, exact solver: every singular value must be right relative
+    # to itself (a solver that works on the squared matrix loses everything below 1e-8 of the largest one)
+    for i in range({"quick": 6, "thorough": 60, "search": 30}[tier]):
+        c = eofcase.gen_eof_case(rng, classes=("EOF", "ComplexEOF"), solvers=("full",))
+        ny, nx = int(rng.integers(1, 3)), int(rng.integers(3, 5))
+        c.update(kind="eigen", ny=ny, nx=nx, n=ny * nx * int(rng.integers(10, 15)), spec="logwide", k=ny * nx, standardize=False,
+                 scale=float(10.0 ** int(rng.integers(-3, 4))))
+        out.append(c)
     return out
 
 
@@ -137,6 +145,20 @@ def run(case):
         F.append(Finding("oracle", "expvar_descending_nonneg", cc, f"explained variance not descending/non-negative: {ev}"))
     if relerr(s, sref[:k] if k <= sref.size else np.pad(sref, (0, k - sref.size))) > tol * 10:
         F.append(Finding("oracle", "singular_values", cc, f"singular values differ from numpy SVD by {relerr(s, sref[:k]):.2e}"))
+    if exact:
+        # every retained singular value is right RELATIVE TO ITSELF (a solver working on X^H X would lose the small ones), and the
+        # normalised score series of the resolved modes are orthonormal
+        keep = [i for i in range(min(k, sref.size)) if sref[i] >= 1e-9 * smax and sref[i] > 0]
+        if keep:
+            checks += 1
+            rel = np.abs(s[keep] - sref[keep]) / sref[keep]
+            if rel.max() > 1e-6:
+                i0 = keep[int(np.argmax(rel))]
+                F.append(Finding("oracle", "singular_values", cc + "|relative", f"singular value {i0 + 1} = {s[i0]:.6e}, numpy SVD {sref[i0]:.6e} (rel {rel.max():.2e}; s/s1 = {sref[i0] / smax:.1e})"))
+            Sn = S[:, keep] / s[keep]
+            eo = np.abs(Sn.conj().T @ Sn - np.eye(len(keep))).max()
+            if eo > 1e-6:
+                F.append(Finding("oracle", "scores_gram", cc + "|normalised", f"normalised scores of the resolved modes are not orthonormal: {eo:.2e}"))
     # eigen relation cov C = C diag(lambda)
     cov = D.conj().T @ D / (n - 1)
     errEig = np.abs(cov @ C - C * ev).max() / max(lam[0], 1e-300)
